@@ -213,7 +213,12 @@ func (c *conn) run(ctx context.Context, handler Handler) {
 			rchan, ok := c.pending[msg.id]
 			c.pendingMu.Unlock()
 			if ok {
-				rchan <- msg
+				select {
+				case rchan <- msg:
+				default:
+					// A response for this call is already waiting to be picked up.
+					// Drop the duplicate rather than block the read loop forever.
+				}
 			}
 		}
 	}
